@@ -69,7 +69,7 @@ def cell_texts(out):
 
 def build(tier, seed):
     quick = tier == "quick"
-    T = 90 if quick else 900
+    T = 240 if quick else 900
     obs = []
     # O1: every row gets exactly one page; pages are contiguous ordered non-empty ranges
     what = "page numbers start at 1 and step by 0/1 => pages are contiguous, ordered, non-empty row ranges covering every row once"
